@@ -858,6 +858,11 @@ static void make_case(Case &c, uint64_t seed, uint64_t idx, bool thorough, const
 	else { static const int FP[] = { 0, 1, 2, 3, 4, 5, 6, 7 }; pi = FP[g.below(8)]; }
 	c.n = PAIRS[pi][0]; c.t = PAIRS[pi][1];
 	if (o.val("--n") != "") { c.n = atoi(o.val("--n").c_str()); c.t = atoi(o.val("--t", "1").c_str()); }
+	// two fixed scenarios in every eight sign cases (seed C16c): reduced signer set with a NON-IDENTITY index map (party 0 left
+	// out), second Sign, one signer of the reduced set fails the proof of step 2c resp. 1c and lands on the ignore list, 2t+1
+	// signers remain -- the random choice of (mode, phase, deviation) reaches this combination in about one case of fifty
+	bool fx = c.kind == K_SIGN && (idx % 8) >= 6 && o.val("--n") == "" && o.val("--mode") == "" && o.val("--phase") == "" && o.val("--dev3") == "" && o.val("--f") == "";
+	if (fx) { c.n = 5; c.t = 1; }
 	c.trbc = (c.n - 1) / 3;
 	switch (g.below(thorough ? 3 : 2)) { case 0: c.pbits = 96; c.qbits = 32; break; case 1: c.pbits = 128; c.qbits = 64; break; default: c.pbits = 256; c.qbits = 160; break; }
 	SmallGroup sg = make_group(g, c.pbits, c.qbits);
@@ -872,6 +877,7 @@ static void make_case(Case &c, uint64_t seed, uint64_t idx, bool thorough, const
 	if (c.kind == K_SIGN) {
 		int mode = (int)g.below(4);      // 0: Generate+Sign only, 1: all four steps on the full set, 2,3: reduced set for Refresh and the second Sign
 		if (o.val("--mode") != "") mode = atoi(o.val("--mode").c_str());
+		if (fx) mode = 2;
 		if (mode == 0) c.nsteps = 2;
 		if (mode >= 2 && c.n - 1 >= 2 * c.t + 1) {
 			int drop = (mode == 2) ? 0 : (int)g.below(c.n);
@@ -884,10 +890,12 @@ static void make_case(Case &c, uint64_t seed, uint64_t idx, bool thorough, const
 	int f = 0;
 	if (fmax > 0 && idx >= 2) f = (g.below(4) == 0) ? (int)g.below(fmax + 1) : fmax;
 	if (o.val("--f") != "") f = std::min(fmax, atoi(o.val("--f").c_str()));
+	if (fx) f = 1;
 	if (c.kind == K_VSS2) { f = 0; gen_below(c.msg1, g, c.q); }
 	std::vector<int> ids; for (int i = 0; i < c.n; i++) ids.push_back(i);
 	for (int i = c.n - 1; i > 0; i--) std::swap(ids[i], ids[g.below(i + 1)]);
 	if (o.val("--who") != "") { int w = atoi(o.val("--who").c_str()); auto it = std::find(ids.begin(), ids.end(), w); if (it != ids.end()) std::swap(*it, ids[0]); }
+	if (fx && ids[0] == 0) std::swap(ids[0], ids[1]);   // the deviating signer is a member of the reduced set
 	std::vector<int> faulty(ids.begin(), ids.begin() + f);
 	c.tag = f ? "cheat" : "honest";
 	int force = o.val("--dev") != "" ? atoi(o.val("--dev").c_str()) : -1;
@@ -901,6 +909,7 @@ static void make_case(Case &c, uint64_t seed, uint64_t idx, bool thorough, const
 		int victim = honest_other();
 		// in which library call does the party deviate?
 		int ph = phase >= 0 ? phase : (int)g.below((c.kind == K_GEN) ? 3 : 6);
+		if (fx) ph = 4;
 		if (c.kind == K_GEN) {
 			// 0,1: in Generate  2: in Refresh
 			if (ph <= 1) {
@@ -937,6 +946,7 @@ static void make_case(Case &c, uint64_t seed, uint64_t idx, bool thorough, const
 			} else {
 				if (!c.in_sub(me)) { c.tag += ":outsider"; continue; }
 				int how = force3 >= 0 ? force3 : (int)g.below(NDEV_SIGN);
+				if (fx) how = (idx % 8 == 6) ? 11 : 10;
 				c.tag += ":" + dev_sign(c.dev[3][me], g, how, (int)c.sub.size(), c.t, c);
 			}
 		}
